@@ -212,16 +212,11 @@ func runC01(c *ShardCtx) {
 		}
 	}
 	// cross family: every construct x every flag set (see cross.go); value and consumed prefix
-	{
-		cn := 3
-		if c.Thorough() {
-			cn = 4
-		}
-		eps := []rtapi.RunOpts{{MaxExpr: 600}, {MaxExpr: 600, Entrypoint: strp("R")}}
-		if !runCross(c, &idx, &crossSpec{maxSize: cn, gens: gens16, inputs: crossInputs, opts: eps, scripts: crossPredScripts, nontrivial: nontriv,
-			cmp: core.CmpOpts{SkipLog: true, SkipNoMatch: true}}) {
-			return
-		}
+	// (bodies up to 3 nodes here; the thorough tier adds the 4-node bodies after the last family)
+	crossEps := []rtapi.RunOpts{{MaxExpr: 600}, {MaxExpr: 600, Entrypoint: strp("R")}}
+	if !runCross(c, &idx, &crossSpec{maxSize: 3, gens: gens16, inputs: crossInputs, opts: crossEps, scripts: crossPredScripts, nontrivial: nontriv,
+		cmp: core.CmpOpts{SkipLog: true, SkipNoMatch: true}}) {
+		return
 	}
 	// family 4: every single label+action decoration
 	n4 := 4
@@ -241,6 +236,10 @@ func runC01(c *ShardCtx) {
 			dec := peg.ReplaceNth(body, pos, func(x *peg.Expr) *peg.Expr { return peg.Action(1, peg.Label("x", x), "x") })
 			runGrammar(c, wrap(dec), fam4)
 		}
+	}
+	if c.Thorough() {
+		runCross(c, &idx, &crossSpec{minSize: 4, maxSize: 4, gens: gens16, inputs: crossInputs, opts: crossEps, scripts: crossPredScripts, nontrivial: nontriv,
+			cmp: core.CmpOpts{SkipLog: true, SkipNoMatch: true}})
 	}
 }
 
